@@ -19,6 +19,9 @@ WEAK_FAMILIES = {"connect-service-nodes", "health-connect", "service-dump-kind"}
 
 def cmd_kind(desc):
     w = desc.split(" ")
+    if "[moved-check]" in desc:
+        # the situation of a recorded finding (a check id re-registered under another service), named in the signature
+        return w[0] + "[moved-check]"
     return " ".join(w[:2]) if w[0] in ("kv", "config-entry", "acl", "ca", "session", "peering", "intention", "pq") else w[0]
 
 
